@@ -89,6 +89,12 @@ func c17Programs(tier string) []*Spec {
 		sp.Main = []Op{{K: "add", B: 0}, {K: "add", B: 1}, {K: "add", B: 2}}
 		sp.Clients = [][]Op{fin(0, 2), fin(1, 2), fin(2, 2)}
 		out = append(out, sp)
+		// the predecessor's priority changes after the successor was queued: the successor takes the place the
+		// predecessor holds when it leaves
+		sp = base("wf-prio")
+		sp.Main = []Op{{K: "add", B: 0}, {K: "add", B: 1}, {K: "add", B: 2}, {K: "prio", B: 0, N: 7}}
+		sp.Clients = [][]Op{fin(0, 2), fin(2, 2), append([]Op{{K: "barwait", B: 0}, {K: "barwait", B: 2}}, fin(1, 2)...)}
+		out = append(out, sp)
 		// successor finishes while still parked
 		sp = base("wf-succ-first")
 		sp.Main = []Op{{K: "add", B: 0}, {K: "add", B: 1}, {K: "add", B: 2}, {K: "incr", B: 2, N: 2}}
